@@ -24,7 +24,7 @@ func init() {
 		Run:            runC19,
 		Rule:           "runs = one (limit 1-10, window 1ms-1h) configuration x 1-64 caller tasks x 50-2000 calls with arrival patterns tight loop / burst / paced just below or above the window / exact multiples of the window; same-instant arrivals are released in a seeded order; over-admission = limit+1 admitted calls spanning strictly less than the window, starvation = a rejected call with fewer than limit admissions in the closed preceding window; non-trivial = at least one rejection and one admission at an exact window boundary; distinct = distinct decision signatures",
 		Real:           []string{"glow.RateLimiter.Allow under the simulated clock, real mutex"},
-		Stub:           []string{"system clock (bubble clock)", "OS scheduler (callers park after waking, seeded release order); real parallel callers are exercised by C13's race mode through the archive endpoint"},
+		Stub:           []string{"system clock (bubble clock)", "OS scheduler (callers park after waking, seeded release order); really overlapping callers: auxiliary free-running phase (1-128 goroutines released together on a fresh limiter, exactly min(calls, limit) admissions expected, built with -race)"},
 		RequiredProbes: []string{"c19.rejected", "c19.boundary-tie", "c19.same-instant"},
 	})
 }
